@@ -15,6 +15,7 @@ from ..report import Registry, chain, sub
 from ._helpers_rules_a import Mini, Unsupported, self_attr
 from ._helpers_rules_b import call_sites
 from . import _helpers_str_c as KS
+from . import _helpers_rob_c3 as RC
 
 R = Registry(
     "C04",
@@ -261,86 +262,136 @@ def r2(ctx):
 
 
 # ------------------------------------------------------------------------------------------ R3
-@R.rule("C04-R3", floor=6, template="T-PATH/T-SIBLING",
-        desc="_process_positional and _process_numeric: positiontup holds original names (inverse of escaped_bind_names "
-             "applied to names read from the text / names taken from bind_names), the text is addressed by escaped names")
+# Semantic re-statement (rob-C3): nothing below matches the *shape* of the two functions.  The bind-name key-space
+# interpreter (KeySpace2) is run over them with one extra fact -- the groups of a regular-expression match over the
+# rendered statement text are ESCAPED names -- and the rule reads off
+#   * which name space the value stored into `self.positiontup` holds (must be ORIGINAL; escape-neutral where the
+#     escape map is known to be empty),
+#   * that the text names are translated by a map keyed by ESCAPED names (the inverse of escaped_bind_names),
+#   * that every keyed lookup made with a name read from the text addresses an ESCAPED-keyed table,
+# whatever the spelling (`M.get(k, k)`, `M[k] if k in M else k`, if/else statement, comprehension or loop, aliases,
+# inverted branches, early returns, callback as def or lambda).  Order of appearance and the numbering guard are
+# def-use / dominating-branch-outcome queries.
+def _r3_run(ctx, f):
+    def resolve_method(nm, f=f):
+        r = ctx.index.resolve_method(f.cls, nm) if f.cls is not None else None
+        return r.node if r is not None and r.node is not f.node else None
+    ctx.functions_analysed.add(f.key)
+    return RC.KeySpace2(f.node, text_callbacks=True, resolve_method=resolve_method).run()
+
+
+def _r3_positiontup(ctx, f, ks, msg_bad, detail_ok):
+    stores = [o for o in ks.obs if o.how == "= elements" and o.recv.endswith(".positiontup")]
+    ctx.require(stores, f"{f.name}: no store of a collection into positiontup found")
+    unknown = [o for o in stores if o.idx_space in (KS.UNK, KS.BOT)]
+    bad = [o for o in stores if o.idx_space in (KS.ESC, KS.MIX)]
+    if unknown and not bad:
+        ctx.error(f"{f.key}:positiontup: cannot tell in which name space the names stored into positiontup live "
+                  f"(line {unknown[0].lineno}); the rule does not understand how they are computed")
+    ctx.check(not bad, f.key + ":positiontup",
+              msg_bad + (f" (line {bad[0].lineno}: the stored names are {SPACE_WORD.get(bad[0].idx_space)})" if bad else ""),
+              detail_ok + f" ({len(stores)} store(s))", f.loc)
+
+
+def _text_sub_calls(ks, fn):
+    """Substitution calls (deduplicated) whose text argument is the statement `self.string` (aliases resolved)."""
+    subst = RC.pure_alias_bindings(fn)
+    seen, out = set(), []
+    for c, text in ks.text_subs:
+        if id(c) in seen:
+            continue
+        seen.add(id(c))
+        targ = c.args[2] if dotted(c.func) == "re.sub" else c.args[1]
+        if dotted(RC.substitute(targ, subst)) == "self.string":
+            out.append(c)
+    return out
+
+
+@R.rule("C04-R3", floor=6, template="T-FLOW/T-PATH",
+        desc="_process_positional and _process_numeric: positiontup holds original names (names read from the text are "
+             "mapped back through a map keyed by escaped names / names are taken from the original-name keyed table), "
+             "the statement text is addressed by escaped names, positions follow the order of appearance in the text, "
+             "only real binds consume a number")
 def r3(ctx):
     pp = ctx.func(f"{COMP}::SQLCompiler._process_positional")
-    pm = pp.module.parents()
-    inv = [n for n in walk_local(pp.node) if isinstance(n, ast.Assign) and isinstance(n.value, ast.DictComp)
-           and dotted(n.value.generators[0].iter.func if isinstance(n.value.generators[0].iter, ast.Call) else n.value.generators[0].iter)
-           == "self.escaped_bind_names.items"]
-    ok_inv = False
-    inv_name = None
-    if len(inv) == 1:
-        dc = inv[0].value
-        tgt = dc.generators[0].target
-        if isinstance(tgt, ast.Tuple) and len(tgt.elts) == 2:
-            k, v = (e.id for e in tgt.elts)
-            ok_inv = unparse(dc.key) == v and unparse(dc.value) == k
-            inv_name = inv[0].targets[0].id
-    ctx.check(ok_inv, pp.key + ":inverse-map", "no `{escaped: original for original, escaped in escaped_bind_names.items()}` inverse map",
-              "reverse map built", pp.loc)
-    stores = [n for n in walk_local(pp.node) if isinstance(n, ast.Assign) and any(self_attr(t) == "positiontup" for t in n.targets)]
-    with_esc = [n for n in stores if ("self.escaped_bind_names", True) in guard_atoms(lexical_guards(pm, n, stop=pp.node))]
-    without = [n for n in stores if ("self.escaped_bind_names", False) in guard_atoms(lexical_guards(pm, n, stop=pp.node))]
-    ok = len(with_esc) == 1 and len(without) == 1
-    if ok:
-        lc = with_esc[0].value
-        ok = isinstance(lc, ast.ListComp) and isinstance(lc.elt, ast.Call) and dotted(lc.elt.func) == f"{inv_name}.get" \
-            and len(lc.elt.args) == 2 and unparse(lc.elt.args[0]) == unparse(lc.elt.args[1]) == unparse(lc.generators[0].target) \
-            and unparse(lc.generators[0].iter) == unparse(without[0].value)
-    ctx.check(ok, pp.key + ":positiontup",
-              "positiontup is not the list of names found in the text mapped back through the inverse escape map "
-              "(escaped names would be looked up in the parameter dictionary)", "names mapped back to originals", pp.loc)
-    # names come from the statement text in order of appearance
-    posvar = unparse(without[0].value) if without else "positions"
-    finder = [n for n in ast.walk(pp.node) if isinstance(n, ast.FunctionDef) and n is not pp.node]
-    appends = [c for fn in finder for c in calls_in(fn) if dotted(c.func) == f"{posvar}.append"]
-    subcall = [c for c in calls_in(pp.node) if call_name(c) == "re.sub" and len(c.args) == 3 and dotted(c.args[2]) == "self.string"]
-    ctx.check(bool(appends) and bool(subcall) and finder and dotted(subcall[0].args[1]) == finder[0].name, pp.key + ":text-order",
+    ks = _r3_run(ctx, pp)
+    # (1) the translation applied to text names is the inverse map
+    good = [t for t in ks.translations if t.key_space == KS.ESC and t.val_space == KS.RAW and t.arg_space in (KS.ESC, KS.BOTH)]
+    wrong = [t for t in ks.translations if t.mismatch()]
+    ctx.check(bool(good) and not wrong, pp.key + ":inverse-map",
+              ("a name read from the statement text (escaped) is looked up in a map keyed by original names: "
+               f"{wrong[0]!r}" if wrong else
+               "the names found in the statement text are not translated through an `{escaped: original}` inverse of "
+               "escaped_bind_names"),
+              f"text names translated by an escaped->original map ({len(good)} site(s))", pp.loc)
+    # (2) what is stored into positiontup
+    _r3_positiontup(ctx, pp, ks,
+                    "positiontup is not the list of names found in the text mapped back through the inverse escape map "
+                    "(escaped names would be looked up in the parameter dictionary)", "names mapped back to originals")
+    # (3) names come from the statement text in order of appearance: the callback of the substitution over
+    #     self.string collects the match groups, positiontup derives from that collection, the text is written back
+    subs = _text_sub_calls(ks, pp.node)
+    nested = {n.name: n for n in ast.walk(pp.node) if isinstance(n, ast.FunctionDef) and n is not pp.node}
+    seeds = set()
+    for c in subs:
+        cb = c.args[1] if dotted(c.func) == "re.sub" else c.args[0]
+        body = nested.get(cb.id) if isinstance(cb, ast.Name) else cb
+        if body is None:
+            continue
+        marg = (body.args.posonlyargs + body.args.args)[0].arg if (body.args.posonlyargs + body.args.args) else None
+        from_match = RC.derived_names(body, {marg}) if marg else set()
+        for cc in calls_in(body):
+            if isinstance(cc.func, ast.Attribute) and cc.func.attr in ("append", "extend") and isinstance(cc.func.value, ast.Name) \
+                    and any(isinstance(n, ast.Name) and n.id in from_match for a in cc.args for n in ast.walk(a)):
+                seeds.add(cc.func.value.id)
+    derived = RC.derived_names(pp.node, seeds, include_nested=False) if seeds else set()
+    pt_stores = [n for n in walk_local(pp.node) if isinstance(n, (ast.Assign, ast.AnnAssign))
+                 and any(self_attr(t) == "positiontup" for t in (n.targets if isinstance(n, ast.Assign) else [n.target]))]
+    from_text = bool(pt_stores) and all(any(isinstance(x, ast.Name) and x.id in derived for x in ast.walk(n.value)) for n in pt_stores)
+    written_back = any(isinstance(n, ast.Assign) and any(self_attr(t) == "string" for t in n.targets)
+                       and any(c in list(ast.walk(n.value)) for c in subs) for n in walk_local(pp.node))
+    ctx.check(bool(subs) and from_text and written_back, pp.key + ":text-order",
               "positions are not collected by the substitution callback over self.string (order of appearance)",
               "collected in text order", pp.loc)
+
     pn = ctx.func(f"{COMP}::SQLCompiler._process_numeric")
+    kn = _r3_run(ctx, pn)
+    # (4) positiontup: original names (taken before any re-keying by escaped names)
+    _r3_positiontup(ctx, pn, kn,
+                    "positiontup is not taken from the original-name keyed table before that table is re-keyed by escaped names",
+                    "original names, taken before re-keying")
+    # (5) the statement text (escaped names) is substituted / formatted from an escaped-name keyed table
+    looks = {o.nid: o for o in kn.text_lookups}.values()
+    on_string = _text_sub_calls(kn, pn.node)
+    ctx.require(looks and on_string, "_process_numeric: no lookup keyed by a name read from the statement text found")
+    unknown = [o for o in looks if o.recv_space in (KS.UNK, KS.BOT)]
+    bad = [o for o in looks if o.recv_space in (KS.RAW, KS.MIX)]
+    if unknown and not bad:
+        ctx.error(f"{pn.key}:text-lookup: cannot tell the key space of `{unknown[0].recv}` (line {unknown[0].lineno})")
+    ctx.check(not bad, pn.key + ":text-lookup",
+              "the statement text (escaped names) is not substituted from the escaped-name keyed table"
+              + (f": `{bad[0].recv}` is keyed by {SPACE_WORD.get(bad[0].recv_space)} names (line {bad[0].lineno})" if bad else ""),
+              f"text addressed by escaped names ({len(looks)} lookup(s))", pn.loc)
+    # (6) numbering skips post-compile / literal-execute parameters: every increment of the position counter is
+    #     dominated by the outcomes `bind not in post_compile_params` and `bind not in literal_execute_params`
     g = ctx.cfg(pn)
-    stores = [n for n in walk_local(pn.node) if isinstance(n, ast.Assign) and any(self_attr(t) == "positiontup" for t in n.targets)]
-    ctx.require(len(stores) == 1, "_process_numeric: expected one store to positiontup")
-    st = stores[0]
-    src = st.value.args[0].id if isinstance(st.value, ast.Call) and call_name(st.value) == "list" and st.value.args \
-        and isinstance(st.value.args[0], ast.Name) else None
-    rekey = [n for n in walk_local(pn.node) if isinstance(n, ast.Assign) and isinstance(n.targets[0], ast.Name)
-             and n.targets[0].id == src and isinstance(n.value, ast.DictComp)]
-    ok = src is not None and len(rekey) == 1
-    if ok:
-        dc = rekey[0].value
-        ok = isinstance(dc.key, ast.Call) and dotted(dc.key.func) == "self.escaped_bind_names.get" \
-            and len(dc.key.args) == 2 and unparse(dc.key.args[0]) == unparse(dc.key.args[1])
-        # the store of positiontup must come before the re-keying on every path
-        from ..cfg import no_exc
-        w = g.must_pass([g.entry], g.nodes_for(rekey[0]), g.nodes_for(st), edge_ok=no_exc)
-        ok = ok and w is None
-    ctx.check(ok, pn.key + ":positiontup",
-              "positiontup is not taken from the original-name keyed table before that table is re-keyed by escaped names",
-              "original names, taken before re-keying", pn.loc)
-    subs = [c for c in calls_in(pn.node) if dotted(c.func) == "self._pyformat_pattern.sub"]
-    ok = False
-    for c in subs:
-        if c.args and isinstance(c.args[0], ast.Lambda) and isinstance(c.args[0].body, ast.Subscript) \
-                and isinstance(c.args[0].body.value, ast.Name) and c.args[0].body.value.id == src:
-            nodes = g.nodes_containing(c)
-            from ..cfg import no_exc
-            ok = bool(rekey) and bool(nodes) and g.must_pass([g.entry], nodes, g.nodes_for(rekey[0]) + [
-                i for i in g.find(lambda nd: nd.kind == "test" and "escaped_bind_names" in unparse(nd.stmt.test))], edge_ok=no_exc) is None
-    ctx.check(ok, pn.key + ":text-lookup",
-              "the statement text (escaped names) is not substituted from the escaped-name keyed table",
-              "text addressed by escaped names", pn.loc)
-    # numbering skips post-compile / literal-execute parameters
-    ph = [n for n in walk_local(pn.node) if isinstance(n, ast.Assign) and isinstance(n.value, ast.JoinedStr)
-          and "_numeric_binds_identifier_char" in unparse(n.value)]
-    ok = False
-    if ph:
-        atoms = guard_atoms(lexical_guards(pn.module.parents(), ph[0], stop=pn.node))
-        ok = any("post_compile_params" in a and not pol for a, pol in atoms) and any("literal_execute_params" in a and not pol for a, pol in atoms)
+    subst = RC.pure_alias_bindings(pn.node)
+    counters = {n.value.id for n in walk_local(pn.node) if isinstance(n, ast.Assign) and isinstance(n.value, ast.Name)
+                and any(self_attr(t) == "next_numeric_pos" for t in n.targets)}
+    ctx.require(len(counters) == 1, "_process_numeric: the position counter stored into next_numeric_pos was not found")
+    counter = next(iter(counters))
+    incs = [n for n in walk_local(pn.node)
+            if (isinstance(n, ast.AugAssign) and isinstance(n.target, ast.Name) and n.target.id == counter)
+            or (isinstance(n, ast.Assign) and any(isinstance(t, ast.Name) and t.id == counter for t in n.targets)
+                and any(isinstance(x, ast.Name) and x.id == counter for x in ast.walk(n.value)))]
+    ctx.require(incs, "_process_numeric: the position counter is never advanced")
+    ok = True
+    for inc in incs:
+        for nid in g.nodes_for(inc):
+            atoms = RC.dominating_atoms(g, nid, subst)
+            for coll in ("post_compile_params", "literal_execute_params"):
+                if not any(re.search(rf" in (\w+\.)*{coll}$", a) and not pol for a, pol in atoms):
+                    ok = False
     ctx.check(ok, pn.key + ":numbering", "numeric placeholders are also numbered for post-compile / literal-execute parameters",
               "only real binds are numbered", pn.loc)
 
@@ -399,7 +450,7 @@ def _ks_run(ctx, f, cache, param_vals=None):
         r = ctx.index.resolve_method(f.cls, nm)
         return r.node if r is not None and r.node is not f.node else None
 
-    ks = KS.KeySpace(f.node, pv, rt, exec_ctx=is_ctx, resolve_method=resolve_method).run()
+    ks = RC.KeySpace2(f.node, pv, rt, exec_ctx=is_ctx, resolve_method=resolve_method).run()
     ctx.functions_analysed.add(f.key)
     cache[ck] = ks
     return ks
